@@ -630,7 +630,7 @@ func soleCallerKey(p *Prog, fn *ssa.Function) string {
 		}
 	}
 	for depth := 0; depth < 3; depth++ {
-		if fn.Signature.Recv() == nil || len(fn.Params) != 1 || p.UsedAsValue(fn) {
+		if fn.Signature.Recv() == nil || len(fn.Params) != 1 || p.UsedAsValue(fn) || !isPlainSetter(fn) {
 			break
 		}
 		css := p.CallSites(fn)
@@ -662,6 +662,22 @@ func soleCallerKey(p *Prog, fn *ssa.Function) string {
 		fn = caller
 	}
 	return p.FuncKey(fn)
+}
+
+// isPlainSetter: one straight line of loads, arithmetic and stores — no call, no branch (beginLexeme, newLine): the
+// only kind of helper that writes "on behalf of" its caller; a scanning routine that happens to have one caller does not.
+func isPlainSetter(fn *ssa.Function) bool {
+	if len(fn.Blocks) != 1 {
+		return false
+	}
+	for _, in := range fn.Blocks[0].Instrs {
+		switch in.(type) {
+		case *ssa.FieldAddr, *ssa.UnOp, *ssa.BinOp, *ssa.Store, *ssa.Return, *ssa.DebugRef:
+		default:
+			return false
+		}
+	}
+	return true
 }
 
 // checkLexPartition: S1 who-writes facts.
